@@ -328,3 +328,145 @@ Proof.
   exact (solved_entry_is_the_specifications_value m p t last vnext sigma dch cch H1 H2 cc axes keep H3 H4 U Fm H5 H6).
 Qed.
 Print Assumptions C01_code_maximisation_is_the_specifications.
+
+(* ---- ONE PERIOD OF THE CODE IS ONE PERIOD OF THE SPECIFICATION ------------------------------------- *)
+From LCM Require Import Model.DispatchersG Proofs.C01_Period.
+(* For a model without filter-restricted variables (variable_info order: discrete states dst, discrete  *)
+(* choices dch, continuous states cst, continuous choices cch): the array lcm computes for a period --   *)
+(* utility_and_feasibility (the regenerated u_and_f of Gen/ModelFunctions.v, its scalar value function    *)
+(* the function representation on the documented layout of the next period's table F) product-mapped    *)
+(* over the continuous choice grids, the regenerated compute_ccv on the pair of arrays, the space map    *)
+(* of that over the grids of dst, dch, cst (C19's product map, any output type), the regenerated         *)
+(* no-shock reduction over the discrete choice axes -- holds at EVERY position (ds ++ cs) the           *)
+(* specification's value_at of the state stored there: the maximum, over all admissible grid choices,   *)
+(* of utility + beta * expected interpolated next value; -inf where no choice is admissible.             *)
+(* Hypothesis: the model evaluates at every grid point (utility, next states, transition rows of the     *)
+(* length of their grid, next table readable at every node).                                            *)
+Theorem C01_one_period_of_the_code_is_the_specifications :
+  forall (m : model) (p : params) (t : nat) (F : list nat -> Q) (dst dch cst cch : list (string * grid)),
+  Permutation (dch ++ cch) (choices m) -> NoDup (map fst (choices m)) ->
+  NoDup (map fst (states m)) -> grids_valid (states m) ->
+  (forall ds dc cs cc,
+     in_bounds (sizes dst) ds -> in_bounds (sizes dch) dc -> in_bounds (sizes cst) cs -> in_bounds (sizes cch) cc ->
+     evaluates_at m p F (spec_env t dst dch cst cch ds dc cs cc)) ->
+  forall ds cs, in_bounds (sizes dst) ds -> in_bounds (sizes cst) cs ->
+  veq (get VUndef (V_array dst dch cst cch (uf_code m p t F dst dch cst cch)) (ds ++ cs))
+      (value_at m p t false (fun idx => VFin (F idx)) (env_of_idx dst ds ++ env_of_idx cst cs)%list).
+Proof. exact period_of_the_code_is_the_specifications. Qed.
+Print Assumptions C01_one_period_of_the_code_is_the_specifications.
+
+(* the last period: u_and_f is the regenerated last-period function (utility and feasibility only) *)
+Theorem C01_last_period_of_the_code_is_the_specifications :
+  forall (m : model) (p : params) (t : nat) (vnext : list nat -> val) (dst dch cst cch : list (string * grid)),
+  Permutation (dch ++ cch) (choices m) -> NoDup (map fst (choices m)) ->
+  (forall ds dc cs cc,
+     in_bounds (sizes dst) ds -> in_bounds (sizes dch) dc -> in_bounds (sizes cst) cs -> in_bounds (sizes cch) cc ->
+     exists u, eval_fun (depth m) m p (spec_env t dst dch cst cch ds dc cs cc) "utility" = Some u) ->
+  forall ds cs, in_bounds (sizes dst) ds -> in_bounds (sizes cst) cs ->
+  veq (get VUndef (V_array dst dch cst cch (uf_code_last m p t dst dch cst cch)) (ds ++ cs))
+      (value_at m p t true vnext (env_of_idx dst ds ++ env_of_idx cst cs)%list).
+Proof. exact last_period_of_the_code_is_the_specifications. Qed.
+Print Assumptions C01_last_period_of_the_code_is_the_specifications.
+
+(* non-vacuity: step_model meets all hypotheses of the period theorem (the evaluation hypothesis at all 18 grid   *)
+(* points by the decision procedure evaluates_everywhereb, sound by evaluates_everywhereb_sound), and both sides  *)
+(* of the conclusion computed at the six states                                                                  *)
+Example C01_period_nonvacuous :
+  let dst := [("h", GDisc 2)] in let cst := [("w", GLin 0 2 3)] in let cch := [("c", GLin 0 2 3)] in
+  Permutation ([] ++ cch) (choices step_model) /\ NoDup (map fst (choices step_model)) /\
+  NoDup (map fst (states step_model)) /\ grids_valid (states step_model) /\
+  (forall ds dc cs cc,
+     in_bounds (sizes dst) ds -> in_bounds (sizes []) dc -> in_bounds (sizes cst) cs -> in_bounds (sizes cch) cc ->
+     evaluates_at step_model step_params step_table (spec_env 0 dst [] cst cch ds dc cs cc)) /\
+  map (fun idx => vred (get VUndef (V_array dst [] cst cch (uf_code step_model step_params 0 step_table dst [] cst cch)) idx))
+      [[0; 0]; [0; 1]; [0; 2]; [1; 0]; [1; 1]; [1; 2]]%nat
+  = [VFin (3 # 8); VFin (11 # 8); VFin (19 # 8); VFin (1 # 4); VFin (9 # 4); VFin (17 # 4)] /\
+  map (fun idx => vred (value_at step_model step_params 0 false (fun i => VFin (step_table i))
+                          (env_of_idx dst [hd 0%nat idx] ++ env_of_idx cst (tl idx))%list))
+      [[0; 0]; [0; 1]; [0; 2]; [1; 0]; [1; 1]; [1; 2]]%nat
+  = [VFin (3 # 8); VFin (11 # 8); VFin (19 # 8); VFin (1 # 4); VFin (9 # 4); VFin (17 # 4)].
+Proof.
+  cbv zeta. split; [apply Permutation_refl|].
+  split; [repeat constructor; simpl; intuition discriminate|].
+  split; [repeat constructor; simpl; intuition discriminate|].
+  split; [repeat constructor; vm_compute; reflexivity|].
+  split; [apply evaluates_everywhereb_sound; vm_compute; reflexivity|].
+  split; vm_compute; reflexivity.
+Qed.
+
+(* ---- ALL PERIODS: WHAT lcm's solve RETURNS ------------------------------------------------------------------ *)
+From LCM Require Import Proofs.C01_Solve Proofs.C01_SolveSpec.
+(* code_solve m p n dch cch (Proofs/C01_Solve.v) is the regenerated glue of get_lcm_function and the regenerated  *)
+(* driver solve (Gen/EntryPoint.v, Gen/SolveBrute.v) instantiated with the per-period components of the period   *)
+(* theorem: the regenerated u_and_f of period t (last-period branch iff t = n-1) whose scalar value function is   *)
+(* the function representation on the array of period t+1 ITSELF (vf_arr), the product maps, the regenerated      *)
+(* compute_ccv and no-shock reduction.  For models without filter-restricted variables (states: discrete ones     *)
+(* first, then continuous ones, each group in declaration order):                                                  *)
+(* (a) the Bellman equation of the specification holds for the arrays lcm returns: in every period and at every   *)
+(*     state of the grid, the entry is the maximum over all admissible grid choices of utility + beta * expected   *)
+(*     value, the next value function being the next array read as a table (interpolated linearly, extended        *)
+(*     linearly beyond the grid); no continuation in the last period;                                             *)
+Theorem C01_lcm_solve_satisfies_the_bellman_equation :
+  forall (m : model) (p : params) (n : nat) (dch cch : list (string * grid)),
+  let dst := dstates (states m) in let cst := cstates (states m) in
+  Permutation (dch ++ cch) (choices m) -> NoDup (map fst (choices m)) -> NoDup (map fst (states m)) -> grids_valid (states m) ->
+  forall t ds cs, (t < n)%nat ->
+  ((S t < n)%nat -> forall ds' dc cs' cc,
+     in_bounds (sizes dst) ds' -> in_bounds (sizes dch) dc -> in_bounds (sizes cst) cs' -> in_bounds (sizes cch) cc ->
+     evaluates_at m p (next_table m p n dch cch t) (spec_env t dst dch cst cch ds' dc cs' cc)) ->
+  (S t = n -> forall ds' dc cs' cc,
+     in_bounds (sizes dst) ds' -> in_bounds (sizes dch) dc -> in_bounds (sizes cst) cs' -> in_bounds (sizes cch) cc ->
+     exists u, eval_fun (depth m) m p (spec_env t dst dch cst cch ds' dc cs' cc) "utility" = Some u) ->
+  in_bounds (sizes dst) ds -> in_bounds (sizes cst) cs ->
+  veq (get VUndef (nth t (code_solve m p n dch cch) (scalar VUndef)) (ds ++ cs))
+      (value_at m p t (t =? n - 1)%nat (fun idx => VFin (next_table m p n dch cch t idx)) (env_of_idx dst ds ++ env_of_idx cst cs)%list).
+Proof. intros m p n dch cch dst cst H1 H2 H3 H4 t ds cs. exact (code_solve_satisfies_the_bellman_equation m p n dch cch H1 H2 H3 H4 t ds cs). Qed.
+Print Assumptions C01_lcm_solve_satisfies_the_bellman_equation.
+
+(* (b) hence, by backward induction over the periods, EVERY entry of EVERY array lcm's solve returns is the entry   *)
+(*     of the specification's solve_spec for that period and state (position: discrete labels, then continuous     *)
+(*     indices), when the model evaluates at every grid point and the specification's value function is finite     *)
+(*     on the grid (every state has an admissible choice; -inf entries are outside the Q-array model of vf_arr).   *)
+Theorem C01_lcm_solve_is_the_specifications_solve :
+  forall (m : model) (p : params) (dch cch : list (string * grid)),
+  Permutation (dch ++ cch) (choices m) -> NoDup (map fst (choices m)) -> NoDup (map fst (states m)) -> grids_valid (states m) ->
+  (forall t, (S t < n_periods m)%nat -> forall ds dc cs cc,
+     in_bounds (sizes (dstates (states m))) ds -> in_bounds (sizes dch) dc -> in_bounds (sizes (cstates (states m))) cs -> in_bounds (sizes cch) cc ->
+     evaluates_at m p (fun _ => 0%Q) (spec_env t (dstates (states m)) dch (cstates (states m)) cch ds dc cs cc)) ->
+  (forall t, S t = n_periods m -> forall ds dc cs cc,
+     in_bounds (sizes (dstates (states m))) ds -> in_bounds (sizes dch) dc -> in_bounds (sizes (cstates (states m))) cs -> in_bounds (sizes cch) cc ->
+     exists u, eval_fun (depth m) m p (spec_env t (dstates (states m)) dch (cstates (states m)) cch ds dc cs cc) "utility" = Some u) ->
+  (forall t idx, (t < n_periods m)%nat -> in_bounds (state_shape m) idx ->
+     exists q, get VUndef (nth t (solve_spec m p) (scalar VUndef)) idx = VFin q) ->
+  forall t idx, (t < n_periods m)%nat -> in_bounds (state_shape m) idx ->
+  veq (get VUndef (nth t (code_solve m p (n_periods m) dch cch) (scalar VUndef)) (dpart (states m) idx ++ cpart (states m) idx)%list)
+      (get VUndef (nth t (solve_spec m p) (scalar VUndef)) idx).
+Proof. exact lcm_solve_is_the_specifications_solve. Qed.
+Print Assumptions C01_lcm_solve_is_the_specifications_solve.
+
+(* non-vacuity: a three-period model with a stochastic discrete and a continuous state, a continuous choice and a  *)
+(* constraint meets every hypothesis (decided by the sound procedures of Proofs/C01_SolveSpec.v), and both sides    *)
+(* computed: the arrays differ from period to period                                                               *)
+Definition solve_params : params := mkParams (9 # 10) [] [("h", mkArr [2; 2]%nat [1 # 4; 3 # 4; 1 # 2; 1 # 2])].
+Example C01_solve_nonvacuous :
+  let cch := [("c", GLin 0 2 3)] in
+  Permutation ([] ++ cch) (choices step_model) /\ NoDup (map fst (choices step_model)) /\
+  NoDup (map fst (states step_model)) /\ grids_valid (states step_model) /\
+  evaluates_in_all_periodsb step_model solve_params [] cch = true /\
+  utility_defined_everywhereb step_model solve_params 2 [] cch = true /\
+  spec_finite_everywhereb step_model solve_params = true /\
+  map (fun a => map vred (data a)) (code_solve step_model solve_params 3 [] cch)
+  = [[VFin 0; VFin (621 # 320); VFin (621 # 160); VFin 0; VFin (2213 # 800); VFin (2213 # 400)];
+     [VFin 0; VFin (63 # 40); VFin (63 # 20); VFin 0; VFin (47 # 20); VFin (47 # 10)];
+     [VFin 0; VFin 1; VFin 2; VFin 0; VFin 2; VFin 4]] /\
+  map (fun a => map vred (data a)) (solve_spec step_model solve_params)
+  = [[VFin 0; VFin (621 # 320); VFin (621 # 160); VFin 0; VFin (2213 # 800); VFin (2213 # 400)];
+     [VFin 0; VFin (63 # 40); VFin (63 # 20); VFin 0; VFin (47 # 20); VFin (47 # 10)];
+     [VFin 0; VFin 1; VFin 2; VFin 0; VFin 2; VFin 4]].
+Proof.
+  cbv zeta. split; [apply Permutation_refl|].
+  split; [repeat constructor; simpl; intuition discriminate|].
+  split; [repeat constructor; simpl; intuition discriminate|].
+  split; [repeat constructor; vm_compute; reflexivity|].
+  repeat split; vm_compute; reflexivity.
+Qed.
